@@ -88,7 +88,7 @@ def pair (s : St) (a b : String) (f : St → (String × String) → St) : St × 
     `node line akind ekind hasCond tagName|N op rhs tagValue|N tagUnit|N instrName lineText arguments hasArgument
           numTruthy tagValueNow`;
     queries: `publish`/`publishold`, `analyze`/`analyzeold`, `accept`/`acceptold` (one verdict per node),
-    `agree` (parser agreement). -/
+    `agree` (parser agreement), `oracles` (the hypotheses NamesOk / OraclesOk on the transmitted tables). -/
 def step (s : St) (line : String) : St × String :=
   match fields line with
   | ["tag", n, u] =>
@@ -145,6 +145,17 @@ def step (s : St) (line : String) : St × String :=
     else if q = "accept" || q = "acceptold" then
       (s, if s.nodes.isEmpty then "none" else
         " ".intercalate (s.nodes.map fun n => s!"{n.a.line}:{showFail (engineFails G (q = "accept") n)}"))
+    else if q = "oracles" then
+      -- the facts `NamesOk` / `OraclesOk` ask for, checked on the transmitted finite tables
+      let names := s.uodCmds.map (·.name)
+      let namesOk := names.eraseDups.length == names.length && names.all (fun n => !s.keywords.contains n) &&
+        s.examples.all (fun n => s.keywords.contains n)
+      let specRx := s.specs.map (·.2)
+      let anchored := s.searchT.all fun (r, a) => !specRx.contains r || s.matchT.contains (r, a)
+      let baseOk := s.searchT.all fun (r, a) => r != baseRegex s.baseUnits || s.baseUnits.contains a
+      let intOk := s.searchT.all fun (r, a) => s.specs.lookup "Run counter" != some r || s.intT.contains a
+      (s, if namesOk && anchored && baseOk && intOk then "ok" else
+        s!"bad:names={namesOk},anchored={anchored},base={baseOk},int={intOk}")
     else if q = "agree" then
       let bad := s.nodes.filter (fun n => !parseAgree G n)
       (s, if bad.isEmpty then "ok" else "disagree:" ++ ",".intercalate (bad.map fun n => toString n.a.line))
